@@ -14,14 +14,21 @@ pub enum Mt {
   Dts,
   Mjs,
   Mts,
+  Cjs,
+  Cts,
+  Dmts,
+  Dcts,
 }
 
 impl Mt {
   pub fn is_ts(self) -> bool {
-    matches!(self, Mt::Ts | Mt::Tsx | Mt::Dts | Mt::Mts)
+    matches!(self, Mt::Ts | Mt::Tsx | Mt::Dts | Mt::Mts | Mt::Cts | Mt::Dmts | Mt::Dcts)
   }
   pub fn is_js_family(self) -> bool {
-    matches!(self, Mt::Js | Mt::Jsx | Mt::Mjs)
+    matches!(self, Mt::Js | Mt::Jsx | Mt::Mjs | Mt::Cjs)
+  }
+  pub fn is_declaration(self) -> bool {
+    matches!(self, Mt::Dts | Mt::Dmts | Mt::Dcts)
   }
   pub fn is_jsx(self) -> bool {
     matches!(self, Mt::Tsx | Mt::Jsx)
@@ -36,6 +43,10 @@ impl Mt {
       Mt::Dts => M::Dts,
       Mt::Mjs => M::Mjs,
       Mt::Mts => M::Mts,
+      Mt::Cjs => M::Cjs,
+      Mt::Cts => M::Cts,
+      Mt::Dmts => M::Dmts,
+      Mt::Dcts => M::Dcts,
     }
   }
   pub fn url(self) -> &'static str {
@@ -47,6 +58,10 @@ impl Mt {
       Mt::Dts => "file:///m.d.ts",
       Mt::Mjs => "file:///m.mjs",
       Mt::Mts => "file:///m.mts",
+      Mt::Cjs => "file:///m.cjs",
+      Mt::Cts => "file:///m.cts",
+      Mt::Dmts => "file:///m.d.mts",
+      Mt::Dcts => "file:///m.d.cts",
     }
   }
 }
@@ -282,15 +297,17 @@ impl B {
     self.n += 1;
     let n = self.n;
     let ts = self.mt.is_ts();
-    let dts = self.mt == Mt::Dts;
+    let dts = self.mt.is_declaration();
+    // CommonJS flavours are parsed as scripts: no ES import / export syntax
+    let cjs = matches!(self.mt, Mt::Cjs | Mt::Cts | Mt::Dcts);
     match p {
       Piece::Trivia(i) => self.out.push_str(TRIVIA[*i as usize % TRIVIA.len()]),
       Piece::Filler(i) => {
         if dts {
-          self.out.push_str(&format!("export declare const f{n}: number"));
+          self.out.push_str(&format!("{}declare const f{n}: number", if cjs { "" } else { "export " }));
         } else {
           match i % 3 {
-            0 => self.out.push_str(&format!("export const f{n} = {n}")),
+            0 => self.out.push_str(&format!("{}const f{n} = {n}", if cjs { "" } else { "export " })),
             1 => self.out.push_str(&format!("const s{n} = \"not an import 'x'\"")),
             _ => self.out.push_str(&format!("function g{n}() {{ return \"é😀\"; }}")),
           }
@@ -298,6 +315,9 @@ impl B {
         self.end();
       }
       Piece::Import { spec, q, attr, types, form } => {
+        if cjs {
+          return;
+        }
         if in_ns {
           return;
         }
@@ -327,6 +347,9 @@ impl B {
         });
       }
       Piece::SideEffect { spec, q } => {
+        if cjs {
+          return;
+        }
         if in_ns {
           return;
         }
@@ -343,6 +366,9 @@ impl B {
         });
       }
       Piece::ExportFrom { spec, q, star } => {
+        if cjs {
+          return;
+        }
         if in_ns {
           return;
         }
@@ -363,6 +389,9 @@ impl B {
         });
       }
       Piece::ImportType { spec, q, export } => {
+        if cjs {
+          return;
+        }
         if !ts || in_ns {
           return;
         }
@@ -481,9 +510,31 @@ impl B {
         };
         self.out.push_str(callee);
         let range = if *template {
+          // a template without substitutions, with the same escapes a string
+          // literal may carry (the cooked text is the specifier)
           let s = self.out.len();
           self.out.push('`');
-          self.out.push_str(spec_of(*spec));
+          let mut chars: Vec<char> = spec_of(*spec).chars().collect();
+          match q {
+            Quote::EscapedU => {
+              let first = chars.remove(0);
+              let mut buf = [0u16; 2];
+              for u in first.encode_utf16(&mut buf) {
+                self.out.push_str(&format!("\\u{:04x}", u));
+              }
+              self.out.extend(chars);
+            }
+            Quote::EscapedX => {
+              let last = chars.pop().unwrap();
+              self.out.extend(chars);
+              if (last as u32) < 0x100 {
+                self.out.push_str(&format!("\\x{:02x}", last as u32));
+              } else {
+                self.out.push(last);
+              }
+            }
+            _ => self.out.push_str(spec_of(*spec)),
+          }
           self.out.push('`');
           (s, self.out.len())
         } else {
@@ -730,10 +781,11 @@ pub fn build(p: &Program) -> Built {
     }
   }
   // at least one statement so that the head comments lead something
-  if p.mt == Mt::Dts {
-    b.out.push_str("export declare const first: number;");
+  let cjs = matches!(p.mt, Mt::Cjs | Mt::Cts | Mt::Dcts);
+  if p.mt.is_declaration() {
+    b.out.push_str(if cjs { "declare const first: number;" } else { "export declare const first: number;" });
   } else {
-    b.out.push_str("export const first = 0;");
+    b.out.push_str(if cjs { "const first = 0;" } else { "export const first = 0;" });
   }
   b.out.push_str(b.eol);
   for piece in &p.pieces {
@@ -813,6 +865,10 @@ pub fn program_strategy(max_pieces: usize) -> impl Strategy<Value = Program> {
       1 => Just(Mt::Dts),
       1 => Just(Mt::Mjs),
       1 => Just(Mt::Mts),
+      1 => Just(Mt::Cjs),
+      1 => Just(Mt::Cts),
+      1 => Just(Mt::Dmts),
+      1 => Just(Mt::Dcts),
     ],
     proptest::bool::weighted(0.15),
     proptest::collection::vec((0..5u8, 0..SPECS.len() as u8, 0..3u8), 0..4),
